@@ -21,6 +21,8 @@ units += main_unit("C06_sort", "harness/C06_sort.cpp")
 units += main_unit("C06_set", "harness/C06_set.cpp")
 units += main_unit("C06_numeric", "harness/C06_numeric.cpp", quick=4, thorough=8)
 units += main_unit("C06_moveonly", "harness/C06_moveonly.cpp", quick=4, thorough=8)
+units.append(Unit("C06_probe_numeric_moveonly_acc", "harness/C06_numeric.cpp", defs=["-DC06_NUM_MOVEONLY=1"],
+                  flavours={"quick": ["asan-cc"], "thorough": ["asan-cc"]}, shards={"quick": 2, "thorough": 4}))
 units.append(Unit("C06_probe_stable_sort_moveonly", "harness/C06_moveonly.cpp", defs=["-DC06_MO_PART=2"],
                   flavours={"quick": ["asan-cc"], "thorough": ["asan-cc"]}, shards={"quick": 2, "thorough": 4}))
 
@@ -45,6 +47,11 @@ for k, nm in {1: "char", 2: "uchar_short", 3: "float"}.items():
 for k, nm in {1: "a", 2: "b", 3: "c", 4: "d"}.items():  # c, d: signed/unsigned pairs of equal width
     units.append(Unit("C06_hetero_" + nm, "harness/C06_hetero.cpp", defs=[f"-DC06_HET_PART={k}", "-DC06_SMALL=1"],
                       flavours={"quick": ["asan-cc"], "thorough": ["asan-cc"]}, shards={"quick": 4, "thorough": 8}))
+# random-access iterators that are not contiguous (etl::reverse_iterator<T*>, strided), int and class elements
+for part, tn in {1: "int", 2: "class"}.items():
+    for view, vn in {1: "rev", 2: "stride"}.items():
+        units.append(Unit(f"C06_noncontig_{tn}_{vn}", "harness/C06_noncontig.cpp", defs=[f"-DC06_NC_PART={part}", f"-DC06_NC_VIEW={view}", "-DC06_SMALL=1"],
+                          flavours={"quick": ["asan-cc"], "thorough": ["asan-cc"]}, shards={"quick": 4, "thorough": 8}))
 # element type with its own ADL swap (call counts / marks / no moves), and a swappable-only element type (probe)
 units.append(Unit("C06_adlswap", "harness/C06_adlswap.cpp", flavours={"quick": ["asan-cc"], "thorough": ["asan-cc"]}, shards={"quick": 4, "thorough": 8}))
 units.append(Unit("C06_probe_swap_only", "harness/C06_adlswap.cpp", defs=["-DC06_ADL_PART=2"],
@@ -74,6 +81,7 @@ P = dict(
     floor={"quick": 3000000, "thorough": 30000000},
     assumptions=["libstdc++ 12 <algorithm>/<numeric> are a correct reference for the specified part of each result",
                  "gcc 12 ASan/UBSan report every out-of-block access adjacent to an exact-size heap block",
+                 "of <numeric> the range algorithms and gcd/lcm (mixed argument types) are covered; midpoint, abs and the saturating operations are left to C14",
                  "element types: a small copyable struct (key, tag), a move-only twin whose self-move-assignment is destructive, heterogeneous pairs double/int, int/unsigned char, long long/int, int/unsigned, long long/unsigned long long, short/unsigned short (both directions), a type with its own ADL swap, a swappable-only type, signed char/char/unsigned char/short/float through raw pointers, long long/int/unsigned char for numeric; other element types are not exercised",
                  "predicate results: bool, and in the *_truthy units int masks (incl. negative) and a class implicitly convertible to bool (C++20 boolean-testable); explicit-only conversions are outside the standard's requirement and not exercised"],
 )
